@@ -261,13 +261,15 @@ func ruleT4(c *Ctx) *RuleResult {
 				}
 			}
 		} else {
-			allInstrs(t.fn, func(in ssa.Instruction) {
-				if al, ok := in.(*ssa.Alloc); ok {
-					if n := namedOf(al.Type()); n != nil && n.Obj().Pkg() != nil && n.Obj().Pkg().Path() == modPath+"/pkg/codecs" {
-						have[n.Obj().Name()] = true
+			for _, f := range withSamePkgCallees(t.fn) {
+				allInstrs(f, func(in ssa.Instruction) {
+					if al, ok := in.(*ssa.Alloc); ok {
+						if n := namedOf(al.Type()); n != nil && n.Obj().Pkg() != nil && n.Obj().Pkg().Path() == modPath+"/pkg/codecs" {
+							have[n.Obj().Name()] = true
+						}
 					}
-				}
-			})
+				})
+			}
 		}
 		for _, w := range sortedKeys(written) {
 			key := t.name + "|" + w
@@ -460,14 +462,19 @@ func ruleT5(c *Ctx) *RuleResult {
 	}
 	loaded := map[*types.Var]bool{}
 	stored := map[*types.Var]bool{}
-	for _, a := range accessesIn(to) {
-		if !a.write {
-			loaded[a.field] = true
+	// a case body may be a helper of the same package (`return vp9FromFMP4(src)`)
+	for _, f := range withSamePkgCallees(to) {
+		for _, a := range accessesIn(f) {
+			if !a.write {
+				loaded[a.field] = true
+			}
 		}
 	}
-	for _, a := range accessesIn(from) {
-		if a.write {
-			stored[a.field] = true
+	for _, f := range withSamePkgCallees(from) {
+		for _, a := range accessesIn(f) {
+			if a.write {
+				stored[a.field] = true
+			}
 		}
 	}
 	codecIface := c.NamedType("pkg/codecs", "Codec")
@@ -764,4 +771,20 @@ func finPhase(c *Ctx, fin, fn *ssa.Function) bool {
 		}
 	}
 	return set[fn]
+}
+
+// withSamePkgCallees: fn and the functions of its own package that it calls statically (one level).
+func withSamePkgCallees(fn *ssa.Function) []*ssa.Function {
+	out := []*ssa.Function{fn}
+	seen := map[*ssa.Function]bool{fn: true}
+	allInstrs(fn, func(in ssa.Instruction) {
+		if ci, ok := in.(ssa.CallInstruction); ok {
+			g := ci.Common().StaticCallee()
+			if g != nil && !seen[g] && g.Blocks != nil && g.Pkg != nil && fn.Pkg != nil && g.Pkg == fn.Pkg {
+				seen[g] = true
+				out = append(out, g)
+			}
+		}
+	})
+	return out
 }
